@@ -1,6 +1,6 @@
 """C17 — files are processed independently, whatever the thread count or schedule."""
 ENTRY = {
-    "lean_modules": ["AstGrepVerif.Props.C17"],
+    "lean_modules": ["AstGrepVerif.Props.C17", "AstGrepVerif.Props.C18Interleave"],
     "theorems": [
         "AGV.C17.items_self_contained",
         "AGV.C17.item_buffer_contiguous",
@@ -13,6 +13,11 @@ ENTRY = {
         "AGV.C17.stream_records_unique",
         "AGV.Worker.interleave_perm",
         "AGV.Worker.isInterleave_sound",
+        "AGV.C18.processPayloadFixed_other",
+        "AGV.C18.processPayloadFixed_same",
+        "AGV.C18.updateAllFixedFrom_project",
+        "AGV.C18.update_interleaving_irrelevant",
+        "AGV.C18.update_same_per_file_same_files",
     ],
     "units": ["read_file", "worker_trees"],
     "timeout": 3600,
